@@ -77,6 +77,136 @@ theorem season_polynomial (year : Int) (k : Fin 4) (hy : -1000 ≤ year ∧ year
     season_jde0 year (k : Int) = .ok (Spec.SunEvents.jde0 year k) := by
   exact season_jde0_eq_spec year k hy
 
+/-- "the four instants of a year are in order and 88-95 days apart" — PARTIAL: proved for the four
+    APPROXIMATE instants `jde0` the search starts from (Meeus' tables), for every year −1000 … 3000:
+    spring < summer < autumn < winter, consecutive ones 88 to 95 days apart.
+    Full clause (measured by the harness for all 4001 years): the same for the RETURNED instants.
+    Missing: a bound on the sum of the loop's corrections `58·sin(k·90° − λ)`, i.e. on how far the
+    VSOP87 longitude at `jde0` is from `k·90°` — an agreement between two independent series. -/
+theorem season_order_partial (year : Int) (hy : -1000 ≤ year ∧ year ≤ 3000) :
+    ∃ j0 j1 j2 j3 : ℝ, season_jde0 year 0 = .ok j0 ∧ season_jde0 year 1 = .ok j1 ∧
+      season_jde0 year 2 = .ok j2 ∧ season_jde0 year 3 = .ok j3 ∧
+      88 ≤ j1 - j0 ∧ j1 - j0 ≤ 95 ∧ 88 ≤ j2 - j1 ∧ j2 - j1 ≤ 95 ∧ 88 ≤ j3 - j2 ∧ j3 - j2 ≤ 95 := by
+  have e0 := season_jde0_eq_spec year 0 hy
+  have e1 := season_jde0_eq_spec year 1 hy
+  have e2 := season_jde0_eq_spec year 2 hy
+  have e3 := season_jde0_eq_spec year 3 hy
+  refine ⟨_, _, _, _, e0, e1, e2, e3, ?_⟩
+  have hyr : (-1000 : ℝ) ≤ year ∧ (year : ℝ) ≤ 3000 := ⟨by exact_mod_cast hy.1, by exact_mod_cast hy.2⟩
+  unfold Spec.SunEvents.jde0
+  split_ifs with h1
+  · have h1r : (year : ℝ) < 1000 := by exact_mod_cast h1
+    have hY : |(year : ℝ) / 1000| ≤ 1 := by rw [abs_le]; constructor <;> linarith
+    have l10 := poly4_ge (rowSub (Spec.SunEvents.table27A 1) (Spec.SunEvents.table27A 0)) _ hY
+    have u10 := poly4_le (rowSub (Spec.SunEvents.table27A 1) (Spec.SunEvents.table27A 0)) _ hY
+    have l21 := poly4_ge (rowSub (Spec.SunEvents.table27A 2) (Spec.SunEvents.table27A 1)) _ hY
+    have u21 := poly4_le (rowSub (Spec.SunEvents.table27A 2) (Spec.SunEvents.table27A 1)) _ hY
+    have l32 := poly4_ge (rowSub (Spec.SunEvents.table27A 3) (Spec.SunEvents.table27A 2)) _ hY
+    have u32 := poly4_le (rowSub (Spec.SunEvents.table27A 3) (Spec.SunEvents.table27A 2)) _ hY
+    rw [← poly4_sub] at l10 u10 l21 u21 l32 u32
+    generalize Spec.SunEvents.poly4 (Spec.SunEvents.table27A 0) ((year : ℝ) / 1000) = p0 at *
+    generalize Spec.SunEvents.poly4 (Spec.SunEvents.table27A 1) ((year : ℝ) / 1000) = p1 at *
+    generalize Spec.SunEvents.poly4 (Spec.SunEvents.table27A 2) ((year : ℝ) / 1000) = p2 at *
+    generalize Spec.SunEvents.poly4 (Spec.SunEvents.table27A 3) ((year : ℝ) / 1000) = p3 at *
+    simp only [rowSub, Spec.SunEvents.table27A] at l10 u10 l21 u21 l32 u32
+    norm_num [abs_of_pos, abs_of_neg] at l10 u10 l21 u21 l32 u32
+    refine ⟨?_, ?_, ?_, ?_, ?_, ?_⟩ <;> linarith
+  · have h1r : (1000 : ℝ) ≤ year := by exact_mod_cast (not_lt.mp h1)
+    have hY : |((year : ℝ) - 2000) / 1000| ≤ 1 := by rw [abs_le]; constructor <;> linarith
+    have l10 := poly4_ge (rowSub (Spec.SunEvents.table27B 1) (Spec.SunEvents.table27B 0)) _ hY
+    have u10 := poly4_le (rowSub (Spec.SunEvents.table27B 1) (Spec.SunEvents.table27B 0)) _ hY
+    have l21 := poly4_ge (rowSub (Spec.SunEvents.table27B 2) (Spec.SunEvents.table27B 1)) _ hY
+    have u21 := poly4_le (rowSub (Spec.SunEvents.table27B 2) (Spec.SunEvents.table27B 1)) _ hY
+    have l32 := poly4_ge (rowSub (Spec.SunEvents.table27B 3) (Spec.SunEvents.table27B 2)) _ hY
+    have u32 := poly4_le (rowSub (Spec.SunEvents.table27B 3) (Spec.SunEvents.table27B 2)) _ hY
+    rw [← poly4_sub] at l10 u10 l21 u21 l32 u32
+    generalize Spec.SunEvents.poly4 (Spec.SunEvents.table27B 0) (((year : ℝ) - 2000) / 1000) = p0 at *
+    generalize Spec.SunEvents.poly4 (Spec.SunEvents.table27B 1) (((year : ℝ) - 2000) / 1000) = p1 at *
+    generalize Spec.SunEvents.poly4 (Spec.SunEvents.table27B 2) (((year : ℝ) - 2000) / 1000) = p2 at *
+    generalize Spec.SunEvents.poly4 (Spec.SunEvents.table27B 3) (((year : ℝ) - 2000) / 1000) = p3 at *
+    simp only [rowSub, Spec.SunEvents.table27B] at l10 u10 l21 u21 l32 u32
+    norm_num [abs_of_pos, abs_of_neg] at l10 u10 l21 u21 l32 u32
+    refine ⟨?_, ?_, ?_, ?_, ?_, ?_⟩ <;> linarith
+
+/-- "successive same-season instants are 365.2-365.3 days apart" — PARTIAL, as above: proved for the
+    APPROXIMATE instants `jde0` of every pair of consecutive years in −1000 … 3000 and each season,
+    including the pair 999/1000 where the code switches from table 27.A to table 27.B.
+    Full clause (measured): the same for the returned instants; missing: the same bound on the
+    loop's corrections as in `season_order_partial`. -/
+theorem season_year_partial (year : Int) (k : Fin 4) (hy : -1000 ≤ year ∧ year ≤ 2999) :
+    ∃ j j' : ℝ, season_jde0 year k = .ok j ∧ season_jde0 (year + 1) k = .ok j' ∧
+      365.2 ≤ j' - j ∧ j' - j ≤ 365.3 := by
+  have e := season_jde0_eq_spec year k ⟨hy.1, by omega⟩
+  have e' := season_jde0_eq_spec (year + 1) k ⟨by omega, by omega⟩
+  refine ⟨_, _, e, e', ?_⟩
+  have hyr : (-1000 : ℝ) ≤ year ∧ (year : ℝ) ≤ 2999 := ⟨by exact_mod_cast hy.1, by exact_mod_cast hy.2⟩
+  unfold Spec.SunEvents.jde0
+  by_cases h1 : year + 1 < 1000
+  · have h0 : year < 1000 := by omega
+    have h0r : (year : ℝ) < 999 := by exact_mod_cast (by omega : year < 999)
+    simp only [h1, h0, if_true]
+    have hY : |(year : ℝ) / 1000| ≤ 1 := by rw [abs_le]; constructor <;> linarith
+    have eY : (((year + 1 : ℤ) : ℝ)) / 1000 = (year : ℝ) / 1000 + 1 / 1000 := by push_cast; ring
+    rw [eY]
+    have st := abs_le.mp (poly4_step (Spec.SunEvents.table27A k) _ hY)
+    generalize Spec.SunEvents.poly4 (Spec.SunEvents.table27A k) ((year : ℝ) / 1000 + 1 / 1000) = q at *
+    generalize Spec.SunEvents.poly4 (Spec.SunEvents.table27A k) ((year : ℝ) / 1000) = p at *
+    fin_cases k <;> simp only [Spec.SunEvents.table27A] at st <;>
+      norm_num [abs_of_pos, abs_of_neg] at st <;> constructor <;> linarith [st.1, st.2]
+  · by_cases h2 : year < 1000
+    · have h999 : year = 999 := by omega
+      subst h999
+      simp only [Spec.SunEvents.poly4]
+      fin_cases k <;> norm_num [Spec.SunEvents.table27A, Spec.SunEvents.table27B]
+    · have h1000r : (1000 : ℝ) ≤ year := by exact_mod_cast (not_lt.mp h2)
+      simp only [h1, h2, if_false]
+      have hY : |((year : ℝ) - 2000) / 1000| ≤ 1 := by rw [abs_le]; constructor <;> linarith
+      have eY : ((((year + 1 : ℤ) : ℝ)) - 2000) / 1000 = ((year : ℝ) - 2000) / 1000 + 1 / 1000 := by push_cast; ring
+      rw [eY]
+      have st := abs_le.mp (poly4_step (Spec.SunEvents.table27B k) _ hY)
+      generalize Spec.SunEvents.poly4 (Spec.SunEvents.table27B k) (((year : ℝ) - 2000) / 1000 + 1 / 1000) = q at *
+      generalize Spec.SunEvents.poly4 (Spec.SunEvents.table27B k) (((year : ℝ) - 2000) / 1000) = p at *
+      fin_cases k <;> simp only [Spec.SunEvents.table27B] at st <;>
+        norm_num [abs_of_pos, abs_of_neg] at st <;> constructor <;> linarith [st.1, st.2]
+
+/-- Direction of the correction: for a solar longitude in [0°, 360°) and a season index 0…3, the
+    angle whose sine is taken is exactly `k·90° − λ`; the correction is POSITIVE (the epoch moves
+    later) when the Sun is up to 180° short of the target longitude and NEGATIVE when it is up to 180°
+    past it, and it is the same for `λ` and its antipode up to sign (`sin` is odd about 180°) — which
+    is why the loop condition alone cannot tell `k·90°` from `k·90° + 180°`. -/
+theorem season_corr_sign (k : Int) (lon : ℝ) (hk : 0 ≤ k ∧ k ≤ 3) (hl : 0 ≤ lon ∧ lon < 360) :
+    season_arg k lon = (k : ℝ) * 90 - lon ∧
+    (0 < (k : ℝ) * 90 - lon → (k : ℝ) * 90 - lon < 180 → 0 < season_corr k lon) ∧
+    (-180 < (k : ℝ) * 90 - lon → (k : ℝ) * 90 - lon < 0 → season_corr k lon < 0) := by
+  have hkr : (0 : ℝ) ≤ k ∧ (k : ℝ) ≤ 3 := ⟨by exact_mod_cast hk.1, by exact_mod_cast hk.2⟩
+  have hpi := Real.pi_pos
+  have harg : season_arg k lon = (k : ℝ) * 90 - lon := by
+    unfold season_arg aNeg aSubF aAdd
+    have h1 : aToPositive lon = lon := by
+      unfold aToPositive plt
+      have : ¬ (lon < 0.0) := by norm_num; exact hl.1
+      simp only [this, decide_false]; rfl
+    rw [h1]
+    have h2 : aReduce (lon + -(ofInt k * 90.0)) = lon - k * 90 := by
+      rw [aReduce_of_abs_lt]
+      · unfold ofInt; norm_num; ring
+      · unfold ofInt; rw [abs_lt]; constructor <;> norm_num <;> nlinarith [hkr.1, hkr.2, hl.1, hl.2]
+    rw [h2, aReduce_of_abs_lt (by rw [abs_lt]; constructor <;> nlinarith [hkr.1, hkr.2, hl.1, hl.2])]
+    ring
+  refine ⟨harg, ?_, ?_⟩
+  · intro h0 h1
+    unfold season_corr psin pradians
+    rw [harg]
+    have : 0 < Real.sin (((k : ℝ) * 90 - lon) * (Real.pi / 180)) :=
+      Real.sin_pos_of_pos_of_lt_pi (by positivity) (by nlinarith)
+    norm_num; exact this
+  · intro h0 h1
+    unfold season_corr psin pradians
+    rw [harg]
+    have : Real.sin (((k : ℝ) * 90 - lon) * (Real.pi / 180)) < 0 :=
+      Real.sin_neg_of_neg_of_neg_pi_lt (by nlinarith) (by nlinarith)
+    norm_num; linarith
+
 /-- Loop post-condition (partial correctness, ANY solar-longitude function, ANY Epoch constructor):
     if `get_equinox_solstice` returns an instant `e`, there is an instant `eLast` — the last one at
     which the solar longitude was evaluated — such that the correction `corr = 58 sin(k·90° − λ(eLast))`
@@ -214,7 +344,38 @@ example : get_equinox_solstice mkEpoch (fun _ => 0) 1 2000 "spring" = .ok (some 
   simp only [season_index, if_true, hj, m1, loopFuel, season_step, hc, add_zero, sub_zero, plt, pabs]
   norm_num
 
+/-- The constructor `Epoch(jde)` of the model (store, `get_full_date()`, `_compute_jde()`), over ℝ, keeps
+    every `jde ≥ 0` — the real-number form of C02's `set_jde_exact`; it is what removes the constructor
+    hypothesis from `season_post_model`. -/
+theorem epoch_constructor_exact (j : ℝ) (hj : 0 ≤ j) : mkEpoch j = .ok j :=
+  Pymeeus.Refine.EpochR.mkEpoch_exact j hj
+
 /-! ## Equation of time -/
+
+/-- The mean longitude used by `equation_of_time` is Meeus' L0 (28.2) — every coefficient, written
+    from the book in Spec/SunEvents.lean — at τ = (JDE − 2451545)/365250, brought into [0°, 360°) by
+    whole turns, for EVERY instant. -/
+theorem eot_l0_spec (jde : ℝ) :
+    0 ≤ eot_l0 jde ∧ eot_l0 jde < 360 ∧
+    ∃ n : ℤ, eot_l0 jde = Spec.SunEvents.meanLongitude ((jde - 2451545) / 365250) - 360 * n := by
+  unfold eot_l0
+  simp only
+  obtain ⟨r0, r1⟩ := aToPositive_range (aReduce_abs_lt (280.4664567 + (jde - 2451545.0) / 365250.0 *
+    (360007.6982779 + (jde - 2451545.0) / 365250.0 * (0.03032028 + (jde - 2451545.0) / 365250.0 *
+    (1.0 / 49931.0 + (jde - 2451545.0) / 365250.0 * (-1.0 / 15300.0 - (jde - 2451545.0) / 365250.0 * 1.0 / 2000000.0))))))
+  refine ⟨r0, r1, ?_⟩
+  obtain ⟨n1, h1⟩ := aReduce_congr (280.4664567 + (jde - 2451545.0) / 365250.0 *
+    (360007.6982779 + (jde - 2451545.0) / 365250.0 * (0.03032028 + (jde - 2451545.0) / 365250.0 *
+    (1.0 / 49931.0 + (jde - 2451545.0) / 365250.0 * (-1.0 / 15300.0 - (jde - 2451545.0) / 365250.0 * 1.0 / 2000000.0)))))
+  obtain ⟨n2, h2⟩ := aToPositive_congr (aReduce (280.4664567 + (jde - 2451545.0) / 365250.0 *
+    (360007.6982779 + (jde - 2451545.0) / 365250.0 * (0.03032028 + (jde - 2451545.0) / 365250.0 *
+    (1.0 / 49931.0 + (jde - 2451545.0) / 365250.0 * (-1.0 / 15300.0 - (jde - 2451545.0) / 365250.0 * 1.0 / 2000000.0))))))
+  refine ⟨n1 + n2, ?_⟩
+  rw [h2, h1]
+  unfold Spec.SunEvents.meanLongitude
+  push_cast
+  norm_num
+  ring
 
 /-- "the reduction brings the value into its documented interval": `e - 360.0 * round(e / 360.0)`
     (floats, `round` to the nearest int with ties to even) lies in [−180°, 180°] — both ends occur:
@@ -271,6 +432,28 @@ theorem eot_split_sign_lost (e : ℝ) (h : |e| < 1 / 4) :
   unfold eot_split
   simp only [hm, hm', z1, z2, pabs, abs_neg, and_self]
 
+/-- The whole function: the returned `(m, s)` are the minutes and seconds of
+    `E = 4·(L0 − 0.0057183° − α + Δψ·cos ε)` minutes of time, `L0` the mean longitude `eot_l0`, `α` the
+    right ascension brought to [0°, 360°), the bracket reduced by whole turns so that `|E| ≤ 720`
+    minutes: `|E| = |m| + s/60`, `0 ≤ s < 60` — the sign convention (apparent minus mean: `L0 − α`),
+    the aberration constant and the factor 4 min/degree as coded, for ALL inputs. -/
+theorem equation_of_time_value (jde alpha dpsi eps : ℝ) :
+    ∃ E : ℝ, (∃ n : ℤ, E = 4 * (eot_l0 jde - 0.0057183 - aToPositive alpha +
+        dpsi * Real.cos (eps * (Real.pi / 180)) - 360 * n)) ∧ -720 ≤ E ∧ E ≤ 720 ∧
+      |E| = |(((equation_of_time jde alpha dpsi eps).1 : ℤ) : ℝ)| + (equation_of_time jde alpha dpsi eps).2 / 60 ∧
+      0 ≤ (equation_of_time jde alpha dpsi eps).2 ∧ (equation_of_time jde alpha dpsi eps).2 < 60 := by
+  unfold equation_of_time
+  obtain ⟨l, u, n, hn⟩ := eot_reduction (eot_raw (eot_l0 jde) (aToPositive alpha) dpsi eps)
+  obtain ⟨s0, s1, hrec, _⟩ := eot_split_recombine (eot_reduce (eot_raw (eot_l0 jde) (aToPositive alpha) dpsi eps))
+  refine ⟨eot_reduce (eot_raw (eot_l0 jde) (aToPositive alpha) dpsi eps) * 4, ⟨n, ?_⟩, by linarith, by linarith, hrec, s0, s1⟩
+  rw [hn]; unfold eot_raw pcos pradians; ring
+
+/-- The two halves of the formula pull in opposite directions: a larger right ascension makes the
+    equation of time smaller, a larger mean longitude makes it larger (sign convention
+    "apparent minus mean time"), before the reduction by whole turns. -/
+example (l0 a d e : ℝ) : eot_raw l0 (a + 1) d e = eot_raw l0 a d e - 1 ∧ eot_raw (l0 + 1) a d e = eot_raw l0 a d e + 1 := by
+  unfold eot_raw; constructor <;> ring
+
 /-! ## Sunrise and sunset (Epoch.rise_set) -/
 
 /-- "sunrise before local transit before sunset": whenever `rise_set` gets as far as returning
@@ -300,6 +483,32 @@ theorem rise_order (ejde : ℝ) (leap : Int) (lat lon alt jt om c : ℝ)
       _ = 180 := by field_simp
   refine ⟨neg_le_of_abs_le hc1, le_of_abs_le hc1, hom', h0, h180, ?_, ?_, ?_⟩ <;>
     (unfold rise_set_args; simp only; norm_num; try linarith)
+
+/-- "ValueError if latitude outside the ±66d 33' range": the guard, for EVERY other argument —
+    refused strictly beyond ±66.55° (= 66°33'), the boundary value itself being accepted
+    (`rise_set_no_solution_iff` covers |φ| ≤ 66.55°). -/
+theorem rise_latitude_guard (ejde : ℝ) (leap : Int) (lat lon alt : ℝ) (h : 66.55 < lat ∨ lat < -66.55) :
+    rise_set_core ejde leap lat lon alt = .error .valueError := by
+  have t1 : (plt rise_limit lat || plt lat (aNeg rise_limit)) = true := by
+    rw [aNeg_rise_limit, rise_limit_val]; unfold plt
+    simp only [Bool.or_eq_true, decide_eq_true_eq]; exact h
+  unfold rise_set_core
+  simp only [t1, if_true]
+
+/-- A negative height is a `ValueError` (`sqrt` of a negative number: "math domain error") for every
+    accepted latitude, date and longitude. -/
+theorem rise_negative_height (ejde : ℝ) (leap : Int) (lat lon alt : ℝ) (hlat : |lat| ≤ 66.55) (halt : alt < 0) :
+    rise_set_core ejde leap lat lon alt = .error .valueError := by
+  have hl := abs_le.mp hlat
+  have t1 : (plt rise_limit lat || plt lat (aNeg rise_limit)) = false := by
+    rw [aNeg_rise_limit, rise_limit_val]; unfold plt
+    simp only [Bool.or_eq_false_iff, decide_eq_false_iff_not, not_lt]
+    constructor <;> linarith [hl.1, hl.2]
+  have t3 : plt alt 0.0 = true := by
+    unfold plt; simp only [decide_eq_true_eq]; norm_num; exact halt
+  unfold rise_set_core
+  simp only [t1, t3, Bool.false_eq_true, if_false, if_true]
+  split_ifs <;> rfl
 
 /-- For which (latitude, day) the sunrise equation has no solution — the listed midnight-sun finding,
     characterised through the model's OWN solar declination `rise_delta` (the sunrise equation's
@@ -353,6 +562,13 @@ theorem rise_set_no_solution_iff (ejde : ℝ) (leap : Int) (lat lon alt : ℝ) (
       exact not_lt.mp (fun h => hR (hiff.mp h))
     simp only [t5, Bool.false_eq_true, if_false, hR, iff_false, not_false_eq_true, true_implies]
     exact ⟨by simp, ⟨_, rfl⟩⟩
+
+/-- The two instants handed to the Epoch constructor are symmetric about the transit: their mean is
+    `jtran` and the day length is `ω/180` days (`ω/360` before, `ω/360` after), for every result. -/
+theorem rise_symmetric (jt om c : ℝ) :
+    ((rise_set_args (jt, om, c)).1 + (rise_set_args (jt, om, c)).2) / 2 = jt ∧
+    (rise_set_args (jt, om, c)).2 - (rise_set_args (jt, om, c)).1 = om / 180 := by
+  unfold rise_set_args; constructor <;> norm_num <;> ring
 
 /-- The `acos` argument of `rise_set` is in range — no "math domain error" — under the explicit,
     decidable hypothesis `|φ| + 23.44° + 0.83° + dip ≤ 90°` (dip = 2.076·√height/60 degrees), for every
@@ -452,6 +668,60 @@ example (ejde lon : ℝ) : ∃ r, rise_set_core ejde 27 65.73 lon 0 = .ok r ∧ 
   obtain ⟨h1, h2, _⟩ := rise_order ejde 27 65.73 lon 0 jt om c hr
   exact ⟨_, hr, h1, h2⟩
 
+/-- `rise_set` looks at the DAY of the epoch only ("We need current epoch without hours, minutes and
+    seconds"): two instants of the same civil day — any times of day — give the same result, whatever
+    the other arguments. (False of the code before the fix of finding C14-rise-time-of-day, where the
+    fraction of the day shifted every returned instant.) -/
+theorem rise_set_day_only (j j' : ℝ) (leap : Int) (lat lon alt : ℝ) (hj : 0 ≤ j) (hj' : 0 ≤ j')
+    (hd : ⌊j + 1 / 2⌋ = ⌊j' + 1 / 2⌋) :
+    rise_set j leap lat lon alt = rise_set j' leap lat lon alt := by
+  have hn : Pymeeus.Refine.EpochR.dayNo j = Pymeeus.Refine.EpochR.dayNo j' := by
+    unfold Pymeeus.Refine.EpochR.dayNo; rw [hd]
+  unfold rise_set
+  rw [Pymeeus.Refine.EpochR.get_date_civil j hj, Pymeeus.Refine.EpochR.get_date_civil j' hj']
+  simp only
+  rw [Pymeeus.Refine.EpochR.pfloor_add_fract _ _ (Pymeeus.Refine.EpochR.dayFrac_nonneg j) (Pymeeus.Refine.EpochR.dayFrac_lt_one j),
+    Pymeeus.Refine.EpochR.pfloor_add_fract _ _ (Pymeeus.Refine.EpochR.dayFrac_nonneg j') (Pymeeus.Refine.EpochR.dayFrac_lt_one j'),
+    hn]
+
+/-- e.g. 0h, 6h and 23h59 of JD 2458575.5 (2019‑04‑02). -/
+example (leap : Int) (lat lon alt : ℝ) :
+    rise_set 2458575.5 leap lat lon alt = rise_set 2458575.75 leap lat lon alt ∧
+    rise_set 2458575.5 leap lat lon alt = rise_set 2458576.4993 leap lat lon alt := by
+  constructor <;> apply rise_set_day_only <;> norm_num
+
+/-- "Sunrise and sunset instants put the Sun's centre … at the standard altitude": exact for the
+    sunrise equation's OWN Sun — whenever `rise_set` returns, the altitude formula of
+    `equatorial2horizontal` (Meeus 13.6), evaluated at the latitude, the model's declination `rise_delta`
+    and the hour angle `ω` it returns, gives exactly the standard altitude `−0.83° − dip`:
+    `sin φ sin δ + cos φ cos δ cos ω = sin h0`. (The 1° of the property is the distance between this Sun
+    and the VSOP87 one: measured.) -/
+theorem rise_altitude_exact (ejde : ℝ) (leap : Int) (lat lon alt jt om c : ℝ)
+    (h : rise_set_core ejde leap lat lon alt = .ok (jt, om, c)) :
+    Spec.SunEvents.sinAltitude (lat * (Real.pi / 180)) (rise_delta ejde leap lon) (om * (Real.pi / 180)) =
+      Real.sin (rise_h0 alt * (Real.pi / 180)) := by
+  obtain ⟨hc0, hc1, hom, _⟩ := rise_order ejde leap lat lon alt jt om c h
+  unfold rise_set_core at h
+  simp only at h
+  split_ifs at h with h1 h2 h3 h4 h5
+  simp only [Except.ok.injEq, Prod.mk.injEq] at h
+  obtain ⟨_, _, hc⟩ := h
+  have hsd : |rise_sin_delta (rise_m (rise_jstar ejde leap lon))| ≤ 1 := by
+    unfold plt pabs at h2; norm_num at h2; exact h2
+  have hs : Real.sin (rise_delta ejde leap lon) = rise_sin_delta (rise_m (rise_jstar ejde leap lon)) := by
+    unfold rise_delta pasin; exact Real.sin_arcsin (neg_le_of_abs_le hsd) (le_of_abs_le hsd)
+  have hden : Real.cos (lat * (Real.pi / 180)) * Real.cos (rise_delta ejde leap lon) ≠ 0 := by
+    unfold peq pcos pradians at h4; norm_num at h4
+    exact mul_ne_zero h4.1 h4.2
+  have hpi := Real.pi_pos
+  have hω : om * (Real.pi / 180) = Real.arccos c := by rw [hom]; field_simp
+  unfold Spec.SunEvents.sinAltitude
+  rw [hω, Real.cos_arccos hc0 hc1, ← hc, hs]
+  unfold rise_cos_om psin pcos pradians
+  have key : ∀ (a b x : ℝ), a * b ≠ 0 → a * b * (x / (a * b)) = x := fun a b x h => mul_div_cancel₀ x h
+  rw [key _ _ _ hden]
+  ring
+
 /-! ## times_rise_transit_set -/
 
 /-- "reports no times exactly when …": `(None, None, None)` is returned iff `|cos H0| > 1`, where
@@ -539,6 +809,33 @@ example : times_rise_transit_set 0 60 0 80 0 80 0 80 0 0 0 = .ok none := by
     Real.cos_neg_of_pi_div_two_lt_of_lt (by nlinarith) (by nlinarith)
   rw [Real.cos_add] at hsum
   have : 0 ≤ Real.cos (60 * (Real.pi / 180)) * Real.cos (80 * (Real.pi / 180)) * (Real.cos H + 1) :=
+    mul_nonneg (mul_pos hcφ hcδ).le (by linarith)
+  nlinarith
+
+/-- The `sin h0` term of the circumpolar test matters: at latitude 60° a body at declination 29.8° with
+    the standard altitude −0.5667° of a star never sets (no times), although the textbook shortcut
+    `tan φ · tan δ > 1` (which ignores `h0`) says it does: here `sin φ sin δ < cos φ cos δ`. -/
+example : times_rise_transit_set 0 60 0 29.8 0 29.8 0 29.8 (-0.5667) 0 0 = .ok none ∧
+    Real.sin (60 * (Real.pi / 180)) * Real.sin (29.8 * (Real.pi / 180)) <
+      Real.cos (60 * (Real.pi / 180)) * Real.cos (29.8 * (Real.pi / 180)) := by
+  have hpi := Real.pi_pos
+  have hcφ : 0 < Real.cos (60 * (Real.pi / 180)) := Real.cos_pos_of_mem_Ioo ⟨by nlinarith, by nlinarith⟩
+  have hcδ : 0 < Real.cos (29.8 * (Real.pi / 180)) := Real.cos_pos_of_mem_Ioo ⟨by nlinarith, by nlinarith⟩
+  -- cos(φ + δ) = cos(89.8°) = sin(0.2°) > 0
+  have hsum : Real.cos (60 * (Real.pi / 180) + 29.8 * (Real.pi / 180)) = Real.sin (0.2 * (Real.pi / 180)) := by
+    rw [show (60 : ℝ) * (Real.pi / 180) + 29.8 * (Real.pi / 180) = Real.pi / 2 - 0.2 * (Real.pi / 180) by ring,
+      Real.cos_pi_div_two_sub]
+  have hpos : 0 < Real.sin (0.2 * (Real.pi / 180)) := Real.sin_pos_of_pos_of_lt_pi (by positivity) (by nlinarith)
+  rw [Real.cos_add] at hsum
+  refine ⟨?_, by linarith⟩
+  rw [rts_none_iff_never_reaches _ _ _ _ _ _ _ _ _ _ _ (by norm_num) (by norm_num)]
+  intro H
+  unfold Spec.SunEvents.sinAltitude
+  have hc := Real.neg_one_le_cos H
+  have hlt : Real.sin (-0.5667 * (Real.pi / 180)) < Real.sin (-(0.2 * (Real.pi / 180))) := by
+    apply Real.sin_lt_sin_of_lt_of_le_pi_div_two <;> nlinarith
+  rw [Real.sin_neg] at hlt
+  have : 0 ≤ Real.cos (60 * (Real.pi / 180)) * Real.cos (29.8 * (Real.pi / 180)) * (Real.cos H + 1) :=
     mul_nonneg (mul_pos hcφ hcδ).le (by linarith)
   nlinarith
 
@@ -644,5 +941,114 @@ theorem rts_order (lon lat a1 d1 a2 d2 a3 d3 h0 dt th0 c r t s m0 : ℝ)
     rw [abs_lt] at g1 g2
     rw [hrv, htv, hsv]
     constructor <;> linarith [g1.1, g1.2, g2.1, g2.2]
+
+/-- The interpolation across the 0°/360° wrap, for ALL tabular values: the two differences it uses are
+    the tabular differences brought into [−180°, 180°] by whole turns (so 359° → 1° counts as +2°, not
+    −358°), the same for every interpolating factor `n`, and the result is `y2 + n/2·(a + b + n·(b − a))`
+    as an Angle. -/
+theorem rts_interpol_wrapped (y1 y2 y3 : ℝ) :
+    ∃ a b : ℝ, -180 ≤ a ∧ a ≤ 180 ∧ -180 ≤ b ∧ b ≤ 180 ∧
+      (∃ k : ℤ, a = y2 - y1 - 360 * k) ∧ (∃ k : ℤ, b = y3 - y2 - 360 * k) ∧
+      ∀ n : ℝ, rts_interpol n y1 y2 y3 = aReduce (y2 + n * (a + b + n * (b - a)) / 2) := by
+  obtain ⟨a1, a2, a3⟩ := wrap180_range (y2 - y1)
+  obtain ⟨b1, b2, b3⟩ := wrap180_range (y3 - y2)
+  refine ⟨wrap180 (y2 - y1), wrap180 (y3 - y2), a1, a2, b1, b2, a3, b3, ?_⟩
+  intro n
+  unfold rts_interpol aAdd wrap180
+  norm_num
+
+/-- A right ascension crossing 0°: (359°, 1°, 3°) interpolated half a day after the middle value is 2°. -/
+example : rts_interpol (1 / 2) 359 1 3 = 2 := by
+  have h1 : roundHE (((1 : ℝ) - 359) / 360.0) = -1 := by
+    have hf : pfloor (((1 : ℝ) - 359) / 360.0) = -1 := by
+      unfold pfloor; exact Int.floor_eq_iff.mpr ⟨by norm_num, by norm_num⟩
+    unfold roundHE plt ofInt
+    simp only [hf]
+    norm_num
+  have h2 : roundHE (((3 : ℝ) - 1) / 360.0) = 0 := roundHE_zero (by rw [abs_of_pos] <;> norm_num)
+  unfold rts_interpol aAdd
+  simp only [h1, h2, ofInt]
+  norm_num
+  exact aReduce_of_abs_lt (by norm_num)
+
+/-- The refinement runs exactly TWICE: a successful `times_rise_transit_set` returns 24 × the second
+    iterate of `rts_iter` started from `check_value` of `m0`, `m0 − H0/360`, `m0 + H0/360`, in the order
+    (rise, transit, set). -/
+theorem rts_two_passes (lon lat a1 d1 a2 d2 a3 d3 h0 dt th0 c r t s : ℝ)
+    (h : rts_times lon lat a1 d1 a2 d2 a3 d3 h0 dt th0 c = .ok (r, t, s)) :
+    ∃ m0 b0 b1 b2 s1 n0 n1 n2,
+      aDivF (aSub (aAdd a2 lon) th0) 360.0 = .ok m0 ∧
+      rts_check_value m0 = some b0 ∧
+      rts_check_value (m0 - aToPositive (aOfRadians (pacos c)) / 360.0) = some b1 ∧
+      rts_check_value (m0 + aToPositive (aOfRadians (pacos c)) / 360.0) = some b2 ∧
+      rts_iter lon lat a1 d1 a2 d2 a3 d3 h0 dt th0 (b0, b1, b2) = .ok s1 ∧
+      rts_iter lon lat a1 d1 a2 d2 a3 d3 h0 dt th0 s1 = .ok (n0, n1, n2) ∧
+      r = n1 * 24 ∧ t = n0 * 24 ∧ s = n2 * 24 :=
+  rts_times_ok h
+
+/-- At a pole (of the observer or of the body's middle declination: `cos φ · cos δ2 = 0`) the function
+    raises `ZeroDivisionError`, before any test — for all other arguments. -/
+theorem rts_pole_zero_division (lon lat a1 d1 a2 d2 a3 d3 h0 dt th0 : ℝ)
+    (h : Real.cos (lat * (Real.pi / 180)) * Real.cos (d2 * (Real.pi / 180)) = 0) :
+    times_rise_transit_set lon lat a1 d1 a2 d2 a3 d3 h0 dt th0 = .error .zeroDivisionError := by
+  have hd : peq (pcos (pradians lat) * pcos (pradians d2)) 0.0 = true := by
+    unfold peq pcos pradians; simp only [decide_eq_true_eq]; norm_num
+    exact mul_eq_zero.mp h
+  unfold times_rise_transit_set rts_cosH0
+  simp only [hd, if_true]
+
+/-- The start estimates are where the body, at its middle position, IS at altitude `h0`: when times are
+    attempted (`|cos H0| ≤ 1`), the altitude formula at the hour angle `H0 = acos(cos H0)` gives exactly
+    `sin h0` (so do `−H0`, the rise, and `+H0`, the set: `cos` is even). -/
+theorem rts_start_at_h0 (lat d2 h0 c : ℝ) (hc : rts_cosH0 lat d2 h0 = .ok c) (h1 : |c| ≤ 1) :
+    Spec.SunEvents.sinAltitude (lat * (Real.pi / 180)) (d2 * (Real.pi / 180)) (Real.arccos c) =
+      Real.sin (h0 * (Real.pi / 180)) ∧
+    Spec.SunEvents.sinAltitude (lat * (Real.pi / 180)) (d2 * (Real.pi / 180)) (-Real.arccos c) =
+      Real.sin (h0 * (Real.pi / 180)) := by
+  unfold rts_cosH0 at hc
+  simp only at hc
+  split_ifs at hc with hd
+  simp only [Except.ok.injEq] at hc
+  have hden : Real.cos (lat * (Real.pi / 180)) * Real.cos (d2 * (Real.pi / 180)) ≠ 0 := by
+    unfold peq pcos pradians at hd; norm_num at hd; exact mul_ne_zero hd.1 hd.2
+  unfold Spec.SunEvents.sinAltitude
+  rw [Real.cos_neg, Real.cos_arccos (neg_le_of_abs_le h1) (le_of_abs_le h1), ← hc]
+  unfold psin pcos pradians
+  have key : ∀ (a b x : ℝ), a * b ≠ 0 → a * b * (x / (a * b)) = x := fun a b x h => mul_div_cancel₀ x h
+  rw [key _ _ _ hden]
+  constructor <;> ring
+
+/-- The transit correction of one pass is `Δm0 = −H/360` with `H` the hour angle
+    `θ0 + 360.985647·m0 − L − α(n)` of the interpolated position, brought into [−180°, 180°] by whole
+    turns (sidereal rate, sign of the longitude and of the correction as coded), for all inputs. -/
+theorem rts_transit_correction (lon lat a1 d1 a2 d2 a3 d3 h0 dt th0 m0 m1 m2 n0 n1 n2 : ℝ)
+    (h : rts_iter lon lat a1 d1 a2 d2 a3 d3 h0 dt th0 (m0, m1, m2) = .ok (n0, n1, n2)) :
+    ∃ H : ℝ, -180 ≤ H ∧ H ≤ 180 ∧
+      (∃ k : ℤ, H = th0 + 360.985647 * m0 - lon - rts_interpol (m0 + dt / 86400) a1 a2 a3 - 360 * k) ∧
+      n0 = m0 - H / 360 := by
+  unfold rts_iter at h
+  simp only at h
+  split at h <;> try (simp at h; done)
+  split at h <;> try (simp at h; done)
+  split at h <;> try (simp at h; done)
+  split at h <;> try (simp at h; done)
+  simp only [Except.ok.injEq, Prod.mk.injEq] at h
+  obtain ⟨h0', _, _⟩ := h
+  obtain ⟨hl, hu, k, hk⟩ := wrap180_range
+    (aSub (aSub (aAdd th0 (360.985647 * m0)) lon) (rts_interpol (m0 + dt / 86400.0) a1 a2 a3))
+  refine ⟨_, hl, hu, ?_, by rw [← h0']; norm_num; ring⟩
+  -- the Angle arithmetic is congruent to the plain expression
+  unfold aSub aAdd aNeg at hk ⊢
+  obtain ⟨k1, e1⟩ := aReduce_congr (th0 + 360.985647 * m0)
+  obtain ⟨k2, e2⟩ := aReduce_congr (-lon)
+  obtain ⟨k3, e3⟩ := aReduce_congr (aReduce (th0 + 360.985647 * m0) + aReduce (-lon))
+  obtain ⟨k4, e4⟩ := aReduce_congr (-rts_interpol (m0 + dt / 86400.0) a1 a2 a3)
+  obtain ⟨k5, e5⟩ := aReduce_congr (aReduce (aReduce (th0 + 360.985647 * m0) + aReduce (-lon)) +
+    aReduce (-rts_interpol (m0 + dt / 86400.0) a1 a2 a3))
+  refine ⟨k + k1 + k2 + k3 + k4 + k5, ?_⟩
+  rw [hk, e5, e4, e3, e2, e1]
+  push_cast
+  norm_num
+  ring
 
 end Pymeeus.C14
